@@ -181,6 +181,22 @@ theorem unfinished_writer_table_never_deleted (cfg : Cfg) (items : List Item) (s
   intro fl n c hfl hb
   exact hg.1.builder f hf fl hfl n c hb
 
+/-- **failed_table_write_commits_nothing.** A flush whose table close fails (I/O error on the final
+buffer flush) performs no file-system operation of the commit: no record is appended, the version
+set, the family list and hence the committed state are those before the flush (`OpOK` with an empty
+trace: the disk is unchanged and still consistent with the state before); only the pending output
+is dropped, so the partial table is an unreferenced orphan that the next cleanup removes
+(`no_partial_visible`). -/
+theorem failed_table_write_commits_nothing (cfg : Cfg) (items : List Item) (s : St) (m m' : Mem) (name : Nat)
+    (ops : List FsOp) (hreach : execAll cfg St.init items = some s) (hm : s.mem = some m)
+    (hf : flushFail m name = some (m', ops)) :
+    ops = [] ∧ m'.vs = m.vs ∧ m'.info = m.info ∧ absOf m' s.disk = absOf m s.disk ∧ Inv m' s.disk := by
+  have hg := good_execAll (good_init cfg) hreach
+  simp only [Good, hm] at hg
+  obtain ⟨h1, h2, h3, hok⟩ := flushFail_ok hg.1 hf
+  subst h1
+  exact ⟨rfl, h2, h3, by simp [absOf, h2, h3], by simpa [applyFsList] using hok.inv⟩
+
 /-! ## 3. file numbers handed out after recovery are fresh -/
 
 /-- **fileno_fresh.** In every reachable state with the store open (in particular right after any
@@ -276,6 +292,12 @@ theorem tie_installCompaction_order :
 theorem tie_moveCompaction_order : only moveCompactionSteps Generated.C01.moveCompactionCalls = moveCompactionSteps := by decide
 theorem tie_compaction_defer_order : Generated.C01.backgroundCompactionJobDeferCalls = compactionDeferSteps := by decide
 theorem tie_createFamily_order : only createFamilySteps Generated.C01.createFamilyCalls = createFamilySteps := by decide
+
+/-- storeBuilder.Close hands the error of the final `writer.Close()` (buffer flush + file close) to
+Commit: the result is NAMED, the deferred closure assigns it, and no local declaration shadows it -/
+theorem tie_builder_close_error :
+    Generated.C01.builderCloseResultNames = ["err"] ∧ "err" ∈ Generated.C01.builderCloseDeferAssigned ∧
+    "err" ∉ Generated.C01.builderCloseVarDecls ∧ Generated.C01.builderCloseDeferCalls = ["writer.Close"] := by decide
 
 /-- the model's initJournal trace is literally driven by the step list -/
 theorem initJournal_trace (vs : VS) :
